@@ -75,8 +75,10 @@ def _gen_history(rng, plen, maxops=24):
             off = target if wh == 0 else target - pos if wh == 1 else target - plen
             ops.append(["seek", off, wh])
             pos = target
-        elif r < 0.91:
+        elif r < 0.89:
             ops.append(["tell"])
+        elif r < 0.91:
+            ops.append(["badseek", -rng.choice([10 ** 6, 10 ** 9, 2 ** 40]), rng.choice([1, 2, 2])])
         elif r < 0.95:
             # another decoder over ANOTHER payload (same stub length) is used in between and stops exactly where this view
             # is positioned next: two decoders in one process share nothing
@@ -244,6 +246,26 @@ def run_history(res: Result, xf, plain: bytes, ops, tag, narrow=None, initial_se
                                 f"history {ops[:k + 1]} on plaintext of {plen} bytes: after seek({off},{wh}) tell() == {t}, "
                                 f"expected {pos}", narrow(ops[:k + 1]) if narrow else None)
                     return False
+            elif op[0] == "badseek":
+                # a seek whose target lies far before the start of the stored file itself: if the view refuses it (as a file
+                # does) the refusal leaves the position where it was; if it is accepted nothing is promised and the history
+                # goes on from a fresh absolute seek
+                try:
+                    xf.seek(op[1], op[2])
+                    refused = False
+                except (OSError, ValueError):
+                    refused = True
+                res.log.log("badseek", tag, k, op[1], op[2], refused)
+                if refused:
+                    res.probes["refused_seek"] += 1
+                    t = xf.tell()
+                    if t != pos:
+                        res.violate(("C09", "seek", "position_moved_by_refused_seek", f"whence={op[2]}"),
+                                    f"history {ops[:k + 1]} on plaintext of {plen} bytes: seek({op[1]},{op[2]}) was refused, tell() == {t} "
+                                    f"afterwards, {pos} before", narrow(ops[:k + 1]) if narrow else None)
+                        return False
+                else:
+                    xf.seek(pos, 0)
             elif op[0] == "other_file":
                 res.probes["second_decoder_on_another_payload"] += 1
                 target, n = op[1], op[2]
